@@ -1,10 +1,12 @@
 #!/usr/bin/env python3
 """Copy confirmed seeded changes from the mutation agents' output into /verif/seeded/<PROP>-<k>/"""
 import json, os, re, shutil, sys
+BASE = os.environ.get('SEED_BASE', '/tmp/mut')
+TAG = os.environ.get('SEED_TAG', '')
 for P in sys.argv[1:]:
-    log = open('/tmp/mut/%s.confirm.log' % P).read()
+    log = open('%s/%s.confirm.log' % (BASE, P)).read()
     for k in (1, 2, 3):
-        src = '/tmp/mut/%s.out/%d' % (P, k)
+        src = '%s/%s.out/%d' % (BASE, P, k)
         m = re.search(r'^%s/%d: (.*)$' % (P, k), log, re.M)
         if not os.path.isdir(src) or not m:
             continue
@@ -12,7 +14,7 @@ for P in sys.argv[1:]:
         ok = 'demo_without=0' in line and 'build=0' in line and 'ctest=0' in line and '100% tests passed' in line and not line.rstrip().endswith('demo_with=0')
         if not ok:
             print('NOT CONFIRMED', P, k, line); continue
-        dst = '/verif/seeded/%s-%d' % (P, k)
+        dst = '/verif/seeded/%s-%s%d' % (P, TAG, k)
         shutil.rmtree(dst, ignore_errors=True); os.makedirs(dst)
         for fn in os.listdir(src):
             fp = os.path.join(src, fn)
@@ -22,7 +24,7 @@ for P in sys.argv[1:]:
         try: meta = json.load(open(os.path.join(src, 'meta.json')))
         except Exception: pass
         meta['property'] = P
-        meta['confirmed_by_lead'] = {'how': 'scratch worktree /tmp/mut/%s at /repo HEAD of that time: demo on unmodified build, git apply patch.diff, cmake --build, ctest (80 tests), demo again, revert' % P,
+        meta['confirmed_by_lead'] = {'how': 'scratch worktree (mutation agent round) for %s at /repo HEAD of that time: demo on unmodified build, git apply patch.diff, cmake --build, ctest (80 tests), demo again, revert' % P,
                                      'result': line}
         json.dump(meta, open(os.path.join(dst, 'meta.json'), 'w'), indent=1)
         print('imported', dst)
